@@ -11,6 +11,7 @@ Decided:
               byte width k <-> i{8k} converters in Frame::to_buf / fill_from_buf
   C07.width   the byte width of a sample is ceil(bits/8) in Frame::bytes_per_sample and the three writer constructors;
               Frame::bytes_len = bytes_per_sample() x samples.len() (the byte reader's staging size)
+  C07.take    every VecDeque::drain of a decode front-end removes the prefix 0..n where n is the returned count / the caller's amount
   C07.cast    narrowing `as` casts in decode / audio / byteorder / crc are shown lossless or audited (castlib)
   (C07.eof also requires FlacChannelReader::consume to accumulate: consumed = consumed + amt)
 Not decided: exactly-once delivery under all call sequences (value-level); equality of byte and sample outputs.
@@ -110,10 +111,51 @@ def sample_width_rules(F, rep, P):
     rep.floor(R, "writer constructors deriving the sample width", n, 3)
 
 
+def take_rules(F, rep, P):
+    """what a reader removes from its buffer is exactly what it reports: every VecDeque::drain in the decode front-ends takes a
+    prefix `0..n` (or `..n`), and n is the count the function returns (or, in a consume(amt), the caller's amount)"""
+    R = P + ".take"
+    n = 0
+    for b in F.bodies:
+        if b.promoted is not None or not re.match(r"<?decode::", b.path):
+            continue
+        for bi, t in b.calls():
+            if not re.search(r"VecDeque::<.*>::drain$", callee_name(t)):
+                continue
+            n += 1
+            what = "%s: drain removes the counted prefix" % strip_generics(b.path)
+            rty = (t["f"].get("args") or [""])[-1]
+            if rty not in ("std::ops::Range<usize>", "std::ops::RangeTo<usize>"):
+                rep.bad(R, what, loc_of(b, t), "the range drained is a %s, not a prefix `0..n`: more (or something other) than the samples handed to the caller leaves the buffer" % rty)
+                continue
+            rl = op_local(t["a"][1])
+            aggs = [st_ for bl in b.blocks for st_ in bl["s"] if st_["d"]["l"] == rl and not st_["d"]["p"] and st_["rv"]["r"] == "agg"]
+            if len(aggs) != 1:
+                rep.check(R, what, False, loc_of(b, t), "", "the drained range is not built in one place")
+                continue
+            ops = aggs[0]["rv"]["ops"]
+            good = len(ops) == 1 or op_int(ops[0]) == 0
+            end = root_place(b, ops[-1])
+            rt = b.j["locals"][0]["ty"]
+            if "Result<usize" in rt or rt == "usize":
+                rets = [st_ for bl in b.blocks for st_ in bl["s"] if st_["d"]["l"] == 0 and not st_["d"]["p"] and
+                        ((st_["rv"]["r"] == "agg" and st_["rv"].get("var") == "Ok") or rt == "usize")]
+                vals = [root_place(b, st_["rv"]["ops"][0] if st_["rv"]["r"] == "agg" else st_["rv"].get("o", {})) for st_ in rets
+                        if not (st_["rv"]["r"] == "agg" and op_int(st_["rv"]["ops"][0]) == 0)]
+                good = good and bool(vals) and all(v is not None and end is not None and v["l"] == end["l"] and v["p"] == end["p"] for v in vals)
+                why = "the number of samples removed from the buffer is not the count returned to the caller"
+            else:
+                good = good and end is not None and not end["p"] and 1 <= end["l"] <= b.j["argc"]
+                why = "the number of samples removed from the buffer is not the caller's amount"
+            rep.check(R, what, good, loc_of(b, t), "", why + ": samples are lost (or delivered twice) on a partial read")
+    rep.floor(R, "buffer drains in the decode front-ends", n, 2)
+
+
 def run(ctx, rep):
     F = ctx.facts()
     ok = OkImplies(F, ctx.cg())
     sample_width_rules(F, rep, "C07")
+    take_rules(F, rep, "C07")
     n = 0
     for path, kind in FRONTS:
         b = _get(F, rep, "C07.refill", path)
